@@ -194,12 +194,24 @@ func cp2(l [][]kyber.Point) [][]kyber.Point {
 }
 
 func newWorld(s *suites.S, setup Step, pi1 []int, res *core.Result) (*world, error) {
+	return newWorldGen(s, setup, pi1, res, 1)
+}
+
+// newWorldGen: gen = 1 standard base, 2 a known multiple of it, 3 a picked point as the generator G of the whole run
+func newWorldGen(s *suites.S, setup Step, pi1 []int, res *core.Result, gen int) (*world, error) {
 	w := &world{s: s, kind: setup.Kind, k: setup.K, nq: setup.NQ}
 	w.pi = make([]int, len(pi1))
 	for j, p := range pi1 {
 		w.pi[j] = p - 1
 	}
-	w.G = s.Point().Base()
+	switch gen {
+	case 2:
+		w.G = s.Point().Mul(s.NonZeroScalar(), nil)
+	case 3:
+		w.G = s.Point().Pick(s.RandomStream())
+	default:
+		w.G = s.Point().Base()
+	}
 	w.h = s.NonZeroScalar()
 	w.H = s.Point().Mul(w.h, w.G)
 	if w.kind == "simple" {
@@ -473,6 +485,22 @@ func (r *replayer) run(w *world) error {
 		return fmt.Errorf("harness: transcript layout of %s (k=%d) is %d bytes, the library produced %d - refinement mapping out of date", w.kind, w.k, w.totalLen(), len(w.prf))
 	}
 	adv, ver := r.bh.steps[2], r.bh.steps[3]
+	if adv.F == "gen" {
+		// the honest case over another generator: a world of its own
+		pi1 := make([]int, len(w.pi))
+		for j, p := range w.pi {
+			pi1[j] = p + 1
+		}
+		w2, err := newWorldGen(r.s, r.bh.steps[0], pi1, r.res, adv.A)
+		if err != nil {
+			r.violate("prove-error", "the honest shuffle / prover fails over a generator other than the standard base", map[string]any{"err": err.Error(), "generator_class": adv.A})
+			return nil
+		}
+		w = w2
+		if w.prf == nil && w.kind != "simple" {
+			return nil
+		}
+	}
 	if ver.Must != "acc" && ver.Must != "rej" && ver.Must != "free" {
 		return fmt.Errorf("behaviour without a verdict (must=%q): generator and replayer out of step", ver.Must)
 	}
@@ -489,7 +517,7 @@ func (r *replayer) run(w *world) error {
 	certify := true
 	unw := false
 	switch adv.F {
-	case "none":
+	case "none", "gen":
 	case "honestlib":
 		xb, yb, prover := shuffle.Shuffle(s, G, H, X[0], Y[0], s.RandomStream())
 		p, err := proof.HashProve(s, protoName, prover)
